@@ -468,14 +468,45 @@ class LocalStorageBackend(StorageBackend):
 
 
 class S3FileStream:
-    """Wrapper for S3 StreamingBody to support context manager protocol."""
+    """Wrapper for S3 StreamingBody to support context manager protocol.
 
-    def __init__(self, body: Any):
+    get_object() returns once the response HEADERS have arrived; the bytes are
+    still on the wire, so a connection reset or read timeout can hit any later
+    read(). The retry around get_object() cannot see that. `reopen(offset)`
+    (a retried ranged GET from `offset`) lets a failed read resume where the
+    stream stood instead of failing the whole manifest / checksum read on one
+    transient fault.
+    """
+
+    def __init__(self, body: Any, reopen: Optional[Any] = None, size: Optional[int] = None):
         self.body = body
+        self._reopen = reopen
+        self._size = size
+        self._pos = 0
 
     def read(self, n: Optional[int] = None) -> bytes:
-        data: bytes = self.body.read(n)
+        try:
+            data: bytes = self.body.read(n)
+        except Exception:
+            if self._reopen is None:
+                raise
+            data = self._resume(n)
+        self._pos += len(data)
         return data
+
+    def _resume(self, n: Optional[int]) -> bytes:
+        from .s3_consistency import with_s3_retry
+
+        if self._size is not None and self._pos >= self._size:
+            return b""
+
+        def again() -> bytes:
+            body = self._reopen(self._pos)
+            chunk: bytes = body.read(n)
+            self.body = body
+            return chunk
+
+        return with_s3_retry(again, "S3 resume streaming read")
 
     def close(self) -> None:
         self.body.close()
@@ -692,12 +723,21 @@ class S3StorageBackend(StorageBackend):
 
         key = self._get_s3_key(path)
 
+        def reopen_at(offset: int) -> Any:
+            """Body of the same object from `offset` on (resume of a broken stream)."""
+            response = self.s3.get_object(
+                Bucket=self.bucket, Key=key, Range=f"bytes={offset}-"
+            )
+            return response["Body"]
+
         def open_op() -> Any:
             try:
                 response = self.s3.get_object(Bucket=self.bucket, Key=key)
                 # Cast to BinaryIO because S3FileStream implements the necessary protocol
                 # but is not explicitly inheriting from io.BytesIO/BinaryIO
-                return S3FileStream(response["Body"])
+                return S3FileStream(
+                    response["Body"], reopen=reopen_at, size=response.get("ContentLength")
+                )
             except ClientError as e:
                 if e.response["Error"]["Code"] == "NoSuchKey":
                     raise FileNotFoundError(
